@@ -116,6 +116,28 @@ ContractSharp ==
 Unsorted == (~ Sorted(a)) => /\ ~ SetOp2OK("ms_union", "int", a, b, SortDef(a \o b))
                              /\ ~ MergeOK("int", "asc", TRUE, <<a, b>>, SortDef(a \o b))
 
+(* ---------------------------------------------------------------- kernels, peek *)
+KernelLaws ==
+    /\ LET r == [ i \in 1..Min2(Len(a), Len(b)) |-> Sign(a[i], b[i]) ] IN
+       /\ Len(a) = Len(b) => /\ CompareOK(a, b, TRUE, r)
+                             /\ \A i \in 1..Len(r) : ~ CompareOK(a, b, TRUE, [r EXCEPT ![i] = IF @ = 1 THEN 0 ELSE @ + 1])
+       /\ Len(a) # Len(b) => ~ CompareOK(a, b, TRUE, r) /\ CompareOK(a, b, FALSE, <<>>)
+    /\ ArgMinOK(<<>>, <<>>) /\ ~ ArgMinOK(<<>>, << <<0, 0>> >>)
+    /\ Len(a) > 0 =>
+          LET m == CHOOSE i \in 1..Len(a) : (\A j \in 1..Len(a) : a[i] <= a[j]) /\ (\A j \in 1..(i - 1) : a[j] # a[i]) IN
+          /\ ArgMinOK(a, << <<m - 1, a[m]>> >>)
+          /\ ~ ArgMinOK(a, <<>>)
+          /\ \A i \in 1..Len(a) : i # m => ~ ArgMinOK(a, << <<i - 1, a[i]>> >>)
+          /\ ~ ArgMinOK(a, << <<m - 1, a[m] + 1>> >>)
+PeekLaws ==
+    BothSorted =>
+        LET u == MsUnion("int", a, b)
+            pk == [ i \in 1..Len(u) |-> <<u[i]>> ] IN
+        /\ PeekPopOK("int", "asc", TRUE, <<a, b>>, pk, <<>>, u)
+        /\ Len(u) > 0 => /\ ~ PeekPopOK("int", "asc", TRUE, <<a, b>>, [pk EXCEPT ![1] = <<>>], <<>>, u)
+                         /\ ~ PeekPopOK("int", "asc", TRUE, <<a, b>>, pk, <<u[1]>>, u)
+                         /\ ~ PeekPopOK("int", "asc", TRUE, <<a, b>>, Tail(pk), <<>>, u)
+
 (* ---------------------------------------------------------------- key orders *)
 Base == Cardinality(Vals)
 RECURSIVE ValOf(_, _)
